@@ -92,6 +92,26 @@ pub fn check_program(out: &mut Out, ast: &Ast, model: &Model, r: &mut Rng) {
             );
         }
     }
+    // one and the same context object: first the read-only evaluation, then the mutable one (whatever the read-only
+    // walk leaves behind in the context or the tree must not show in what follows), then read-only again
+    {
+        let log = observe::new_log();
+        let mut c = api::ctx_from_model(model, &log);
+        let first = api::eval_tree(&tree, &c);
+        let second = api::eval_tree_mut(&tree, &mut c);
+        let after = api::ctx_vars(&c);
+        out.evals(2);
+        let ok_first = first.same(&i_imm.got);
+        let ok_second = second.lifted().map_or(false, |l| outcome_matches(&r_mut.result, &l)) && api::same_vars(&r_mut.after.vars, &after);
+        if !ok_first || !ok_second {
+            out.violation(
+                "readonly/then-mutable-on-the-same-context",
+                describe(),
+                format!("read-only {} ; then mutable {} ; final {}", i_imm.got.show(), exec::show_ref_result(&r_mut.result), r_mut.after.show_vars()),
+                format!("read-only {} ; then mutable {} ; final {}", first.show(), second.show(), api::show_vars(&after)),
+            );
+        }
+    }
     // a program without a reached assignment leaves the mutable context unchanged as well
     if !r_mut.run.assign_reached && !api::same_vars(&i_mut.vars_after, &model.vars) {
         out.violation(
